@@ -382,3 +382,54 @@ impl ProducerRig {
         (ok, err, dropped)
     }
 }
+
+/// C20: `use_keyspace_result` on synthetic per-target results. Labels: "ok" | "broken" | "timeout" |
+/// "db" | "mismatch" | "unexpected" | anything else = a bad keyspace name.
+/// Returns "ok" | "err:<label>"; panics exactly where the real function panics.
+pub fn use_keyspace_result_labels(labels: &[&str]) -> String {
+    use crate::errors::{
+        BadKeyspaceName, BrokenConnectionErrorKind, DbError, RequestAttemptError, UseKeyspaceError,
+    };
+    use crate::frame::response::CqlResponseKind;
+    let mk = |l: &str| -> Result<(), UseKeyspaceError> {
+        match l {
+            "ok" => Ok(()),
+            "broken" => Err(UseKeyspaceError::RequestError(
+                RequestAttemptError::BrokenConnectionError(
+                    BrokenConnectionErrorKind::ChannelError.into(),
+                ),
+            )),
+            "timeout" => Err(UseKeyspaceError::RequestTimeout(
+                std::time::Duration::from_secs(1),
+            )),
+            "db" => Err(UseKeyspaceError::RequestError(
+                RequestAttemptError::DbError(DbError::Invalid, "x".into()),
+            )),
+            "mismatch" => Err(UseKeyspaceError::KeyspaceNameMismatch {
+                expected_keyspace_name_lowercase: "a".into(),
+                result_keyspace_name_lowercase: "b".into(),
+            }),
+            "unexpected" => Err(UseKeyspaceError::RequestError(
+                RequestAttemptError::UnexpectedResponse(CqlResponseKind::Ready),
+            )),
+            _ => Err(UseKeyspaceError::BadKeyspaceName(BadKeyspaceName::Empty)),
+        }
+    };
+    match super::use_keyspace_result(labels.iter().map(|l| mk(l))) {
+        Ok(()) => "ok".to_owned(),
+        Err(UseKeyspaceError::RequestTimeout(_)) => "err:timeout".to_owned(),
+        Err(UseKeyspaceError::KeyspaceNameMismatch { .. }) => "err:mismatch".to_owned(),
+        Err(UseKeyspaceError::BadKeyspaceName(_)) => "err:badname".to_owned(),
+        Err(UseKeyspaceError::RequestError(RequestAttemptError::BrokenConnectionError(_))) => {
+            "err:broken".to_owned()
+        }
+        Err(UseKeyspaceError::RequestError(RequestAttemptError::DbError(..))) => {
+            "err:db".to_owned()
+        }
+        Err(UseKeyspaceError::RequestError(RequestAttemptError::UnexpectedResponse(_))) => {
+            "err:unexpected".to_owned()
+        }
+        #[allow(unreachable_patterns)]
+        Err(_) => "err:other".to_owned(),
+    }
+}
